@@ -65,8 +65,13 @@ func (i *imports) RegisterPrefixAlias(alias string, path string) error {
 // Alias generates an alias for given path and adds path to collection of all imports.
 // See Imports.
 func (i *imports) Alias(import_ string) string {
-	import_ = i.decorateImport(import_)
+	return i.AliasPath(i.decorateImport(import_))
+}
 
+// AliasPath returns an alias for the given path.
+// In contrast to Alias it ignores registered prefixes,
+// it is designed for packages imported by the generated code itself (e.g. "fmt", "os").
+func (i *imports) AliasPath(import_ string) string {
 	if imp, ok := i.imports[import_]; ok {
 		return imp
 	}
